@@ -433,6 +433,10 @@ pub struct ThreadsScn {
     /// that the running thread is preempted before an atomic operation of instrumented code
     #[serde(default)]
     pub atomic_preempt_pm: u64,
+    /// if the issuer type can be cloned (it cannot today), the threads work with copies of one
+    /// instance instead of instances of their own
+    #[serde(default)]
+    pub cloned_issuers: bool,
 }
 
 pub fn gen_c14(rng: &mut Rng, tier: Tier) -> Result<Value, serde_json::Error> {
@@ -497,6 +501,7 @@ pub fn gen_c14(rng: &mut Rng, tier: Tier) -> Result<Value, serde_json::Error> {
         preempt_entropy: rng.chance(7, 8),
         preempt_clock: rng.bool(),
         atomic_preempt_pm: *rng.pick(&[2u64, 10, 50, 200]),
+        cloned_issuers: rng.chance(1, 3),
     })
 }
 
@@ -519,7 +524,20 @@ fn run_threads_world(scn: &ThreadsScn, entropy_seed: u64) -> WorldOut {
     seams::activate(entropy_seed, scn.clock_base.max(1_000_000_000), mix(&[scn.sched_seed, 14]), scn.tick_max_ns);
     let mut w = World::new(BTreeMap::new());
     let nodes: Vec<usize> = (0..scn.threads).map(|_| w.rt.add_node()).collect();
-    let issuers: Vec<world::IssuerHandle> = (0..scn.threads).map(|_| World::new_issuer(&scn.key, Some(keys::alg_of(&scn.key).to_string()))).collect();
+    let mut issuers: Vec<world::IssuerHandle> = (0..scn.threads).map(|_| World::new_issuer(&scn.key, Some(keys::alg_of(&scn.key).to_string()))).collect();
+    if scn.cloned_issuers && scn.threads >= 2 {
+        // construct the first one (on its own thread), then hand out copies — if that is possible
+        let first = issuers[0].clone();
+        let _ = w.rt.call_typed(nodes[0], move || {
+            let mut g = first.lock().unwrap_or_else(|e| e.into_inner());
+            let _ = g.get();
+        });
+        for t in 1..scn.threads {
+            if let Some(c) = world::try_clone_issuer(&issuers[0]) {
+                issuers[t] = c;
+            }
+        }
+    }
     let mut remaining: Vec<usize> = vec![scn.per_thread; scn.threads];
     let mut done: Vec<usize> = vec![0; scn.threads];
     let mut busy: Vec<bool> = vec![false; scn.threads];
